@@ -89,7 +89,7 @@ var props = []prop{
 	{"CLOSURE", false, true, mU, mN, tABx}, {"VARARG", false, true, mU, mN, tABC}, {"NOP", false, false, mR, mN, tASbx},
 }
 
-const frameLimit = 200
+const frameLimit = 250
 const fieldsPerFlush = 50
 const maxArrayIndex = 67108864
 
